@@ -247,6 +247,26 @@ Proof.
   split; [apply reach_run; [apply reach_init | reflexivity] | vm_compute; reflexivity].
 Qed.
 
+(* ... and the repaired defect D9 stays refuted: with locked_thread_id_ a plain field (accesses
+   translate to NonAtomic) a waiter's read of the owner id races with the owner's write *)
+Definition plain_owner_prog : Lang.prog :=
+  {| spin_cls := reviewed_spin;
+     rspin_cls := {| try_lock_body :=
+                       [ If (ETas Acquire)
+                            [ If (EOwnerNe NonAtomic Self) [ Ret (Some (EConst false)) ] [] ]
+                            [ StoreOwner Self NonAtomic ];
+                         IncCount; Ret (Some (EConst true)) ];
+                     lock_body := lock_body reviewed_rspin;
+                     unlock_body :=
+                       [ If (EOwnerNe NonAtomic Self) [ Ret None ] [];
+                         If EDecIsZero [ StoreOwner Nobody NonAtomic; Clear Release ] [] ] |} |}.
+Example C19_plain_owner_refuted :
+  exists m, reach plain_owner_prog KRSpin [[CLock; CAccess; CUnlock]; [CUnlock]] m /\ race (snd m) = true.
+Proof.
+  exists (run plain_owner_prog KRSpin [0;0;1]%nat (minit plain_owner_prog KRSpin [[CLock; CAccess; CUnlock]; [CUnlock]])).
+  split; [apply reach_run; [apply reach_init | reflexivity] | vm_compute; reflexivity].
+Qed.
+
 (* registry: ids 0,1,2 handed out, object 1 destroyed, default = object at address 12 *)
 Example C19_nonvacuous_registry :
   exists r, rreach r /\ live r = [(12, 2); (10, 0)] /\ dflt r = Some 12 /\ next_id r = 3 /\
